@@ -177,7 +177,7 @@ func (a *Act) frameCheckRef(st *State, c string, ref string, pos string) {
 		a.vc.oblige("frame", a.label+c, st.reach, goal, "write to "+c+" must be inside the function's modifies clause or fresh", pos)
 	}
 	for li := a.innermostLoop(); li != nil; li = li.parent {
-		goal := or(inMods(li.items, c, ref), app(">", ref, li.allocLE))
+		goal := or(inMods(li.items, c, ref), app(">", ref, a.root().allocE))
 		a.vc.oblige("frame", fmt.Sprintf("%sloop%d:%s", a.label, li.ord, c), st.reach, goal, "write to "+c+" inside loop must be in the loop's modifies set or allocated during the loop", pos)
 	}
 }
@@ -358,7 +358,7 @@ func (a *Act) appendSlice(st *State, s Val, t Val, elem types.Type, pos string) 
 		rr := vc.declare("app_rrow", rs)
 		vc.assume(st.reach, fmt.Sprintf("(forall ((%s Int)) (! (= (select %s %s) (ite (and (<= 0 %s) (< %s %s)) (select %s (+ %s %s)) (ite (and (<= %s %s) (< %s %s)) (select %s (+ %s (- %s %s))) %s))) :pattern ((select %s %s))))",
 			j, rr, j, j, j, ls, srow, sOff(s.Term), j, ls, j, j, newLen, trow, sOff(t.Term), j, ls, ec.Z, rr, j))
-		nt := ite(fits, sto(cur, sArr(s.Term), ip), sto(cur, nr, rr))
+		nt := sto(sto(cur, sArr(s.Term), ite(fits, ip, srow)), nr, rr)
 		vc.setComp(st.mem, ec.C, cs, nt)
 		a.noteFresh(ec.C, nr)
 		if !a.dry {
@@ -379,7 +379,7 @@ func (a *Act) frameCheckRefCond(st *State, c, ref, cond, pos string) {
 		a.vc.oblige("frame", a.label+c, g, goal, "in-place append/copy into "+c+" must be inside the modifies clause or fresh", pos)
 	}
 	for li := a.innermostLoop(); li != nil; li = li.parent {
-		goal := or(inMods(li.items, c, ref), app(">", ref, li.allocLE))
+		goal := or(inMods(li.items, c, ref), app(">", ref, a.root().allocE))
 		a.vc.oblige("frame", fmt.Sprintf("%sloop%d:%s", a.label, li.ord, c), g, goal, "in-place append/copy into "+c+" inside loop", pos)
 	}
 }
@@ -411,7 +411,9 @@ func (a *Act) appendOne(st *State, s Val, v Val, elem types.Type, pos string) Va
 		j := "j!q"
 		vc.assume(st.reach, fmt.Sprintf("(forall ((%s Int)) (! (= (select %s %s) (ite (and (<= 0 %s) (< %s %s)) (select %s (+ %s %s)) (ite (= %s %s) %s %s))) :pattern ((select %s %s))))",
 			j, rr, j, j, j, ls, srow, sOff(s.Term), j, j, ls, flat[i].Term, ec.Z, rr, j))
-		nt := ite(fits, sto(cur, sArr(s.Term), ip), sto(cur, nr, rr))
+		// both alternatives as row updates of one heap value (the row of the fresh array is
+		// unobservable when the append stays in place): avoids an ite between whole heaps
+		nt := sto(sto(cur, sArr(s.Term), ite(fits, ip, srow)), nr, rr)
 		vc.setComp(st.mem, ec.C, cs, nt)
 		a.noteFresh(ec.C, nr)
 		a.frameCheckRefCond(st, ec.C, sArr(s.Term), fits, pos)
